@@ -27,7 +27,7 @@ def build(ctx):
     exe = os.path.join(ctx.scratch, "bin", "pamdrv")
     os.makedirs(os.path.dirname(exe), exist_ok=True)
     hp = os.path.join(os.path.dirname(os.path.dirname(os.path.abspath(__file__))), "harness", "pam")
-    r = subprocess.run(["clang", "-g", "-O1", "-fsanitize=address,undefined", "-fno-omit-frame-pointer", "-Wall",
+    r = subprocess.run(["clang", "-g", "-O1", "-fsanitize=address,undefined", "-fno-omit-frame-pointer", "-Wall", "-Wl,--wrap=write",
                         "-I" + os.path.join(hp, "stub"), "-o", exe, os.path.join(hp, "pamdrv.c"),
                         os.path.join(repo, "pam", "pam_whawty.c")], stdout=subprocess.PIPE, stderr=subprocess.STDOUT, text=True)
     if r.returncode != 0:
@@ -44,10 +44,12 @@ def expected_request(user, pw):
     return enc(user) + enc(pw) + b"\0\0" + b"\0\0"
 
 
-def run_script(exe, work, idx, edge, creds=None):
+def run_script(exe, work, idx, edge, creds=None, writecap=0):
     s = edge["script"]
     r = s["reply"]
     user, pw = creds or CREDS[idx % len(CREDS)]
+    if creds is None:                 # short writes on the agent's socket, rotating over the scripts
+        writecap = [0, 0, 1, 0, 5, 0, 64][idx % 7]
     opts = OPTS[(idx // 3) % len(OPTS)] if creds is None else ["use_first_pass"]
     if r["body"] >= 250 and "debug" not in opts:          # long replies always also with the debug log on
         opts = opts + ["debug"]
@@ -118,6 +120,8 @@ def run_script(exe, work, idx, edge, creds=None):
     argv += [o for o in opts if not o.startswith("sock=") and not o.startswith("timeout=")] + ["timeout=%d" % TIMEOUT_S, "sock=" + sock]
     argv += [o for o in opts if o.startswith("timeout=") and (not o[8:].isdigit() or o == "timeout=0")]   # invalid ones: must be ignored
     env = dict(os.environ, ASAN_OPTIONS="detect_leaks=1:abort_on_error=0", UBSAN_OPTIONS="print_stacktrace=1:halt_on_error=0")
+    if writecap:
+        env["PAMDRV_WRITECAP"] = str(writecap)
     t0 = time.time()
     try:
         p = subprocess.run(argv, stdout=subprocess.PIPE, stderr=subprocess.PIPE, timeout=9, env=env)
@@ -268,8 +272,9 @@ def encoder_grid(ctx, saslreplay_exe, edge, prop="C13"):
     if r.returncode != 0:
         ctx.fatal("saslreplay -encgrid failed: " + r.stdout[-1500:])
     golden = json.load(open(gout))
+    caps = [0, 1, 3, 100, 255, 257]      # bytes accepted per write(): unlimited, and short writes of several sizes
     with concurrent.futures.ThreadPoolExecutor(max_workers=32) as ex:
-        results = list(ex.map(lambda ic: run_script(exe, work, ic[0], edge, creds=ic[1]), enumerate(creds)))
+        results = list(ex.map(lambda ic: run_script(exe, work, ic[0], edge, creds=ic[1], writecap=caps[ic[0] % len(caps)]), enumerate(creds)))
     n = 0
     for res, g, (u, p) in zip(results, golden, creds):
         if g.get("err"):
